@@ -156,6 +156,9 @@ class BitString(Type):
         super(BitString, self).__init__(name, 'BIT STRING')
 
     def encode(self, data, _separator, _indent):
+        if len(data[0]) == 0:
+            return "''B"
+
         encoded = int(binascii.hexlify(data[0]), 16)
         encoded |= (0x80 << (8 * len(data[0])))
 
